@@ -459,3 +459,85 @@ Theorem ants_any_error_is_retried :
     at_rel (an_tk s' k) = at_rel (an_tk s k) /\ at_onerr (an_tk s' k) = at_onerr (an_tk s k).
 Proof. exact ants_any_error_is_retried_l. Qed.
 Print Assumptions ants_any_error_is_retried.
+
+(* ------------------------------------------------------------------------------------------------
+   (D21) PARTIAL link between the two ants models -- NOT the simulation ants_steps_refine_events.
+   What is proved: the per-task DECISION AUTOMATON of the event machine models/Ants.v is refined by the step model.
+   The view [av] of a task (proofs/AntsStepsRefine.v) = its phase without the time stamp (Queued | Enq a | Wait a |
+   Done), the fields, the decisions (attempt number from 1, pair) newest first, the error-callback arguments.
+   (1) ants_machine_task_automaton: in Ants.v the view of task k changes under AnPick k by Queued -> Enq 1, under
+       AnEnqueue k by Enq a -> Wait a, under AnDecide k (per-attempt channel) by Wait a -> av_after R onErr view a f
+       for some pair f (av_after is what an_after does to the view: store f as decision a; nil: Done | a < R: Enq (a+1)
+       | else onError(err) if registered; Done).
+   (2) ants_steps_refine_task_automaton: EVERY step of the fixed step model (any state reachable for any pool size,
+       programs, schedule, choices; effective retry >= 1) takes the view of the task its thread holds before or
+       after the step -- as seen from that thread's pc: AstDEnq i = Enq (i+1), AstDSelect i = Wait (i+1), the pcs from
+       the two stores to wg.Done = the view AFTER the decision whose pair the thread carries / has stored (the
+       event machine performs store, err test, retry or onError, wg.Done in its one AnDecide step), not held and
+       not done = Queued, done = the view after the last decision -- to the SAME view or to the result of exactly
+       one of those three transitions, with the same R and onErr flag; and a task the stepping thread holds neither
+       before nor after keeps everything the views are made of.
+   (3) ants_steps_view_done: the view of a finished task is its actual outcome (Done, result/err, all stored
+       decisions numbered 1.., the error callback's arguments) -- "the same per-task outcomes".
+   NOT covered: time (deadlines, AnAdvance, the instants in the logs), the capacity guards of AnPick / AnEnqueue /
+   AnStart, the order of events of different tasks, the handlers (AnStart / AnReturn / AnPublish, the attempt's
+   channel content: Ants.v scripts handlers per attempt with durations fixed at Send time, the step model per
+   invocation with durations decided by the schedule), Send / discard numbering, Get2 events.  So no history of
+   the event machine is constructed; what is shown is that both models drive a task through the same automaton. *)
+From Got Require Import AntsStepsRefine AntsStepsRefine2.
+
+Theorem ants_machine_task_automaton :
+  (forall cfg s k s', an_step cfg s (AnPick k) = Some s' ->
+     an_view (an_tk s' k) = av_set_ph (an_view (an_tk s k)) (AvEnq 1)) /\
+  (forall cfg s k s' a c, at_phase (an_tk s k) = AnEnq a c -> an_step cfg s (AnEnqueue k) = Some s' ->
+     an_view (an_tk s' k) = av_set_ph (an_view (an_tk s k)) (AvWait a)) /\
+  (forall cfg s k s' viaDone a c,
+     an_pub cfg = AnAttemptChannel -> at_phase (an_tk s k) = AnWait a c -> an_step cfg s (AnDecide k viaDone) = Some s' ->
+     exists f, an_view (an_tk s' k) =
+               av_after (ao_R (at_opts (an_tk s k))) (ao_onerr (at_opts (an_tk s k))) (an_view (an_tk s k)) a f).
+Proof. exact (conj an_pick_view (conj an_enqueue_view an_decide_view)). Qed.
+Print Assumptions ants_machine_task_automaton.
+
+Theorem ants_steps_refine_task_automaton :
+  forall n progs s tid hint pc pc' t x x',
+    ast_reach AstFixed n progs s ->
+    ast_pc_of s tid = Some pc -> ast_pc_of (fst (fst (ast_step AstFixed n s tid hint))) tid = Some pc' ->
+    nth_error (ast_tasks s) t = Some x ->
+    nth_error (ast_tasks (fst (fst (ast_step AstFixed n s tid hint)))) t = Some x' ->
+    (ast_holds pc t = true \/ ast_holds pc' t = true ->
+       (1 <= aso_retry (att_opt x))%nat ->
+       av_step (aso_retry (att_opt x)) (aso_onerr (att_opt x)) (ast_view pc t x) (ast_view pc' t x')) /\
+    (ast_holds pc t = false -> ast_holds pc' t = false ->
+       att_opt x' = att_opt x /\ att_decided x' = att_decided x /\ att_done x' = att_done x /\
+       att_res x' = att_res x /\ att_err x' = att_err x /\ att_onerr x' = att_onerr x).
+Proof.
+  intros n progs s tid hint pc pc' t x x' R Hpc Hpc' Hx Hx'. split.
+  - intros Hh HR. apply (ast_step_view n s tid hint pc pc' t x x'); try assumption.
+    + apply (ast_reach_inv _ _ _ _ R).
+    + apply (ast_reach_dinv _ _ _ R).
+    + apply (ast_reach_nostoreo _ _ _ R).
+  - intros H1 H2.
+    pose proof (ast_step_core_unheld n s tid hint pc pc' t x x' (ast_reach_inv _ _ _ _ R) (ast_reach_nostoreo _ _ _ R)
+                  Hpc Hpc' H1 H2 Hx Hx') as Hc.
+    unfold ast_core in Hc. injection Hc as E1 E2 E3 E4 E5 E6 E7 E8. repeat split; congruence.
+Qed.
+Print Assumptions ants_steps_refine_task_automaton.
+
+Theorem ants_steps_view_done :
+  forall n progs s t x,
+    ast_reach AstFixed n progs s -> nth_error (ast_tasks s) t = Some x -> att_done x = true ->
+    (1 <= aso_retry (att_opt x))%nat ->
+    ast_view_free x = {| av_ph := AvDone; av_fields := av_pair (att_res x, att_err x);
+                         av_dec := av_decs 1 (att_decided x) []; av_onerr := map av_err (att_onerr x) |}.
+Proof. exact ast_view_done. Qed.
+Print Assumptions ants_steps_view_done.
+
+(* non-vacuity: in the late-write run the dispatcher's third step is the AnEnqueue transition of task 0
+   (Enq 1 -> Wait 1), its fourth (select -> timeout) the AnDecide transition that, R being 2, leads to Enq 2 *)
+Example c07_refine_nonvacuous :
+  let s3 := ast_run AstFixed 1 (ast_init 1 ra_lw_progs) (firstn 5 ra_lw_sched) in
+  let s4 := ast_run AstFixed 1 (ast_init 1 ra_lw_progs) (firstn 6 ra_lw_sched) in
+  ast_pc_of s3 1 = Some (AstDEnq 0 0 0) /\ ast_pc_of s4 1 = Some (AstDSelect 0 0 0) /\
+  option_map (fun x => av_ph (ast_view (AstDEnq 0 0 0) 0 x)) (nth_error (ast_tasks s3) 0) = Some (AvEnq 1) /\
+  option_map (fun x => av_ph (ast_view (AstDSelect 0 0 0) 0 x)) (nth_error (ast_tasks s4) 0) = Some (AvWait 1).
+Proof. vm_compute. repeat split. Qed.
